@@ -1228,7 +1228,12 @@ impl VM {
 
     fn mul(&self, left: &Value, right: &Value, pos: &Position) -> Result<Primitive, Error> {
         Ok(match (left, right) {
-            (P(Int(i)), P(Int(ii))) => Int(i * ii),
+            (P(Int(i)), P(Int(ii))) => Int(i.checked_mul(*ii).ok_or_else(|| {
+                Error::new(
+                    format!("Integer overflow in {} * {}", i, ii).into(),
+                    pos.clone(),
+                )
+            })?),
             (P(Float(f)), P(Float(ff))) => Float(f * ff),
             _ => {
                 return Err(Error::new(
@@ -1241,7 +1246,15 @@ impl VM {
 
     fn div(&self, left: &Value, right: &Value, pos: &Position) -> Result<Primitive, Error> {
         Ok(match (left, right) {
-            (P(Int(i)), P(Int(ii))) => Int(i / ii),
+            (P(Int(_)), P(Int(0))) => {
+                return Err(Error::new("Division by zero".into(), pos.clone()));
+            }
+            (P(Int(i)), P(Int(ii))) => Int(i.checked_div(*ii).ok_or_else(|| {
+                Error::new(
+                    format!("Integer overflow in {} / {}", i, ii).into(),
+                    pos.clone(),
+                )
+            })?),
             (P(Float(f)), P(Float(ff))) => Float(f / ff),
             _ => {
                 return Err(Error::new(
@@ -1254,7 +1267,12 @@ impl VM {
 
     fn sub(&self, left: &Value, right: &Value, pos: &Position) -> Result<Primitive, Error> {
         Ok(match (left, right) {
-            (P(Int(i)), Value::P(Int(ii))) => Int(i - ii),
+            (P(Int(i)), Value::P(Int(ii))) => Int(i.checked_sub(*ii).ok_or_else(|| {
+                Error::new(
+                    format!("Integer overflow in {} - {}", i, ii).into(),
+                    pos.clone(),
+                )
+            })?),
             (P(Float(f)), Value::P(Float(ff))) => Float(f - ff),
             _ => {
                 return Err(Error::new(
@@ -1267,7 +1285,15 @@ impl VM {
 
     fn modulus(&self, left: &Value, right: &Value, pos: &Position) -> Result<Primitive, Error> {
         Ok(match (left, right) {
-            (P(Int(i)), Value::P(Int(ii))) => Int(i % ii),
+            (P(Int(_)), Value::P(Int(0))) => {
+                return Err(Error::new("Modulus by zero".into(), pos.clone()));
+            }
+            (P(Int(i)), Value::P(Int(ii))) => Int(i.checked_rem(*ii).ok_or_else(|| {
+                Error::new(
+                    format!("Integer overflow in {} %% {}", i, ii).into(),
+                    pos.clone(),
+                )
+            })?),
             (P(Float(f)), Value::P(Float(ff))) => Float(f % ff),
             _ => {
                 return Err(Error::new(
@@ -1280,7 +1306,12 @@ impl VM {
 
     fn add(&self, left: &Value, right: &Value, pos: &Position) -> Result<Value, Error> {
         Ok(match (left, right) {
-            (P(Int(i)), Value::P(Int(ii))) => P(Int(i + ii)),
+            (P(Int(i)), Value::P(Int(ii))) => P(Int(i.checked_add(*ii).ok_or_else(|| {
+                Error::new(
+                    format!("Integer overflow in {} + {}", i, ii).into(),
+                    pos.clone(),
+                )
+            })?)),
             (P(Float(f)), Value::P(Float(ff))) => P(Float(f + ff)),
             (P(Str(s)), Value::P(Str(ss))) => {
                 let mut ns = String::new();
